@@ -160,7 +160,7 @@ class AimdRateControl:
 
     def _near_max_rate_increase(self) -> int:
         bits_per_frame = self.current_bitrate / 30
-        packets_per_frame = math.ceil(bits_per_frame / (8 * 1200))
+        packets_per_frame = max(1, math.ceil(bits_per_frame / (8 * 1200)))
         avg_packet_size_bits = bits_per_frame / packets_per_frame
 
         response_time = self.rtt + 100
